@@ -6,7 +6,14 @@ import wire
 EXPRS = ["a", "a.b", "to_string(a)", "ceil(v) == `1`", "to_string(@)", "'42'", "`42`", "'[1, 2, 3]'", "a == `[1, 2, 3]`", "'true'", "`true`",
          "type('[1, 2, 3]')", "a[*].b", "sort_by(a, &b)", "abs(a)", "nope(a)", "a[::0]", "length(a)", "a || b", "[a, b]", "{x: a, y: b}", "a[?b > `1`]",
          "max_by(a, &b)", "map(&b, a)", "join(',', a)", "a ==", "a[", "sum(a)", "avg(a)", "keys(@)", "@", "a | [0]", "floor(v)", "to_number('1.0')",
-         "`1.0`", "`1`", "a == `1`", "[`1`, `1.0`]", "contains(a, `1.0`)"]
+         "`1.0`", "`1`", "a == `1`", "[`1`, `1.0`]", "contains(a, `1.0`)",
+         # the same expression spelled with different leading / surrounding whitespace (offsets differ, meaning does not)
+         "  a.b", "\n a.b", "\ta.b ", " abs(a)", "\n  abs(a)", "abs(a) ", "  nope(a)", "\n\n a[::0]", " a ==", "\u00a0a"]
+# families that differ only in the field an expression reference names: a stale reference shows in the result
+REF_FAMILY = ["max_by(@, &a)", "max_by(@, &b)", "max_by(@, &c)", "min_by(@, &a)", "min_by(@, &b)", "min_by(@, &c)", "sort_by(@, &a)", "sort_by(@, &b)",
+              "sort_by(@, &c)", "map(&a, @)", "map(&b, @)", "map(&c, @)", "max_by(@, &a)[0]", "sort_by(@, &c)[*].a", "map(&[a, b], @)", "map(&{x: c}, @)"]
+REF_DOCS = [[{"a": 1, "b": 3, "c": 2}, {"a": 2, "b": 2, "c": 3}, {"a": 3, "b": 1, "c": 1}],
+            [{"a": "x", "b": "z", "c": "y"}, {"a": "y", "b": "y", "c": "z"}, {"a": "z", "b": "x", "c": "x"}]]
 DOCS = [{"a": 1}, {"a": 1.0}, [9007199254740992], [9007199254740993], {"v": 1.0}, {"v": ("d", 0x3ff0000000000001)}, {"a": [1, 2, 3]},
         {"a": [{"b": 2}, {"b": 1}, {"b": 2.0}]}, {"a": [{"b": "x"}, {"b": 1}]}, {"a": "s", "b": None}, None, [1, "a"], {"a": {"b": [1, 2]}},
         {"a": [1, 2.5], "v": 0.5}, {"a": ["x", "y"]}, {"a": -1.5, "v": -0.5}, {"a": 1.0000000000000002}, {"a": [1.0, 2, 3]}]
@@ -50,6 +57,21 @@ class P(framework.Prop):
                     h = rng.choice(list(live))
                     ops.append("search %d %s" % (h, wire.val(rng.choice(docs))))
             out.append("hist " + " ; ".join(ops))
+        # churn: compile / search / drop in quick succession, so that freed trees are recycled (a memo keyed by address or by
+        # normalised text would return a stale tree)
+        M = 60 if tier == "quick" else 3000
+        for _ in range(M):
+            ops = []
+            nh = 0
+            for _ in range(rng.randint(6, 30)):
+                nh += 1
+                e = rng.choice(REF_FAMILY) if rng.random() < 0.8 else rng.choice(EXPRS)
+                ops.append("compile %d 0 %s" % (nh, wire.s(e)))
+                for _ in range(rng.choice([1, 1, 2])):
+                    ops.append("search %d %s" % (nh, wire.val(rng.choice(REF_DOCS))))
+                if rng.random() < 0.85:
+                    ops.append("drop %d" % nh)
+            out.append("hist " + " ; ".join(ops))
         return out
 
     def oracle(self, case, iobs):
@@ -66,7 +88,7 @@ class P(framework.Prop):
         for op, o in zip(ops, obs):
             t = op.split(" ")
             if t[0] == "compile":
-                bind[int(t[1])] = (int(t[2]), t[3]) if o == "OK" else None
+                bind[int(t[1])] = (int(t[2]), t[3]) if o.startswith("OK") else None
                 key = (int(t[2]), t[3])
                 if compiled.setdefault(key, o) != o:
                     return "compiling %s twice gave %s and %s" % (t[3], compiled[key], o)
